@@ -9,6 +9,8 @@ mod util;
 #[cfg(kani)]
 mod c19_bbox;
 #[cfg(kani)]
+mod c20_constraints;
+#[cfg(kani)]
 mod c07_kalman;
 #[cfg(all(kani, test))]
 mod playback;
